@@ -174,8 +174,7 @@ let comp_of = function
   | L [A "garbage"; _] -> Garbage
   | _ -> raise (Bad "comp")
 let alt_of = function
-  | L [A "hyphen"; A "none"; hi] -> AHyphen (None, partial_of hi)
-  | L [A "hyphen"; lo; hi] -> AHyphen (Some (partial_of lo), partial_of hi)
+  | L [A "hyphen"; lo; hi] -> AHyphen (partial_of lo, partial_of hi)
   | L [A "set"; L cs] -> ASet (List.map comp_of cs)
   | _ -> raise (Bad "alt")
 let ast_of = function
